@@ -31,6 +31,9 @@ Step1 == /\ l <= Len(Ev) /\ l' = l + 1 /\ tid' = tid
                    /\ verdict' = (IF done # Len(Cfg.train) THEN Bad("not-every-training-condition-evaluated-once")
                                   ELSE IF ~SameLearn(e.st, r2) THEN Bad("learnable-state-differs-from-reference-loop")
                                   ELSE IF ~SameLr(e.st, r2) THEN Bad("learning-rate-schedule") ELSE verdict)
+              [] e.e = "refit" ->          \* the same Solver is fitted again by a fresh Trainer
+                   /\ ref' = Restart(Cfg, ref) /\ done' = 0
+                   /\ verdict' = (IF ref.k # Cfg.N THEN Bad("number-of-optimizer-steps(first fit)") ELSE verdict)
               [] e.e \in {"val_start", "val_end"} ->
                    /\ UNCHANGED <<ref, done>>
                    /\ verdict' = (IF ~SameLearn(e.st, ref) THEN Bad("validation-changed-learnable-state") ELSE verdict)
